@@ -736,8 +736,8 @@ class Sim:
             raise exc
 
     def _want_preempt(self, t):
-        if self.script is not None:
-            return True        # every line is a decision point in replay (only if >1 runnable)
+        # (replay: the script only replaces the outcome of _choose; whether a line is a decision point at all follows the
+        # case's policy exactly as in the recorded run, otherwise script positions and decision points drift apart)
         k = self.policy.kind
         if k == 'cooperative' or (k == 'directed' and not self.fired):
             return False
